@@ -455,6 +455,14 @@ class Compiler(object):
                     self.pre_process_default_value_enumerated(member,
                                                               resolved_member)
 
+                if resolved_member['type'] == 'BOOLEAN':
+                    # The parser cannot know that a referenced type
+                    # is a BOOLEAN.
+                    if member['default'] == 'TRUE':
+                        member['default'] = True
+                    elif member['default'] == 'FALSE':
+                        member['default'] = False
+
     def pre_process_default_value_enumerated(self, member, resolved_member):
         """The default is a name, or a number if numeric enums are
         used. The specification may have been compiled with the other
